@@ -34,7 +34,7 @@ PROPERTIES = {
         "subchecks": [
             {"check": "c06", "what": "cache invisibility vs cache-disabled replica", "nontrivial": "mutation while a generator was frozen between cache miss and Add",
              "budget": {"quick": 75, "thorough": 900}, "seeds": {"quick": 1, "thorough": 3}, "chunk": 15, "replay_attempts": 3,
-             "must_probe": ["mutation_while_generator_frozen", "frozen_generator_released", "checkpoints"]},
+             "must_probe": ["mutation_while_generator_frozen", "frozen_generator_released", "stale_writer_scenario", "checkpoints"]},
         ],
     },
     "C04": {
@@ -133,8 +133,8 @@ PROPERTIES = {
         "level_text": "seeded search over interleavings of the real PushQueue and debounce code under a simulator-owned scheduler and virtual clock; every run is checked against an independent coverage/merge-algebra oracle; sampling, not proof",
         "level_note": "trusted: testing/synctest virtual time and quiescence detection, the harness oracle (expected union/forced/newest computed independently), quiescent-point determinism (self-tested with bin/check determinism)",
         "rule": "each run = one seeded schedule of the listed operations chosen step by step from the sorted enabled set; distinct = distinct schedule signature (hash of the action sequence); non-trivial per sub-check (see per_check.*.nontrivial_rule)",
-        "real": ["xds.PushQueue", "model.PushRequest.Merge/CopyMerge", "xds.debounce (via verif-tagged accessor)"],
-        "stub": ["pushFn (parks until the simulator releases it)", "clock (testing/synctest virtual time)"],
+        "real": ["xds.PushQueue", "model.PushRequest.Merge/CopyMerge", "xds.debounce (via verif-tagged accessor)"] + WIS_REAL,
+        "stub": ["pushFn (parks until the simulator releases it; c02a only)", "clock (testing/synctest virtual time)"] + WIS_STUB,
         "assumptions": ["PushQueue operations are atomic under its single lock, so ordering whole operations reaches every interleaving",
                         "virtual time (testing/synctest); goroutines woken in one step run under the Go scheduler (quiescent-point determinism, self-tested)"],
         "subchecks": [
@@ -142,6 +142,10 @@ PROPERTIES = {
              "nontrivial": "a notification arrived while a debounced push was running",
              "budget": {"quick": 20, "thorough": 300}, "seeds": {"quick": 1, "thorough": 3}, "chunk": 300,
              "must_probe": ["event_while_push_running", "merged_push"]},
+            {"check": "c02c", "what": "whole istiod, PushThrottle 1-2: send errors and stream cuts while pushes are outstanding; pipeline must drain and survivors must get later updates",
+             "nontrivial": "a fault fired while a push for that client was outstanding (parked in Send, or queued/processing)",
+             "budget": {"quick": 40, "thorough": 600}, "seeds": {"quick": 1, "thorough": 3}, "chunk": 20, "replay_attempts": 3,
+             "must_probe": ["fault_while_push_outstanding", "checkpoints"]},
             {"check": "c02b", "what": "PushQueue Enqueue/Dequeue/MarkDone/ShutDown interleavings, coverage + exact-union + no-aliasing oracle",
              "nontrivial": "an Enqueue hit a connection that was dequeued and not yet marked done",
              "budget": {"quick": 20, "thorough": 300}, "seeds": {"quick": 1, "thorough": 3}, "chunk": 400,
